@@ -376,12 +376,28 @@ func suffixHelper1(w *World, fn *ssa.Function) (string, int, bool) {
 		return "", -1, false
 	}
 	// the loop condition is the only branch: every element is appended
+	// (a guard that hands an empty input straight back as nil / empty is the loop's own result for that input)
 	nIf := 0
+	emptyRet := map[*ssa.BasicBlock]bool{}
 	for _, b := range fn.Blocks {
 		for _, ins := range b.Instrs {
-			if _, ok := ins.(*ssa.If); ok {
-				nIf++
+			iff, ok := ins.(*ssa.If)
+			if !ok {
+				continue
 			}
+			if bin, isBin := iff.Cond.(*ssa.BinOp); isBin && bin.Op == token.EQL {
+				if la := lenArg(bin.X); la != nil && la == ssa.Value(fn.Params[inParam]) {
+					if k, isK := intConst(bin.Y); isK && k == 0 {
+						if t := b.Succs[0]; len(t.Instrs) == 1 {
+							if r, isRet := t.Instrs[0].(*ssa.Return); isRet && len(r.Results) == 1 && (isNilConst(r.Results[0]) || emptySlice(r.Results[0])) {
+								emptyRet[t] = true
+								continue
+							}
+						}
+					}
+				}
+			}
+			nIf++
 		}
 	}
 	if nIf != 1 {
@@ -389,6 +405,9 @@ func suffixHelper1(w *World, fn *ssa.Function) (string, int, bool) {
 	}
 	// returns the accumulated slice
 	for _, r := range liveReturns(fn) {
+		if emptyRet[r.Block()] {
+			continue
+		}
 		ex := w.Expr(r.Results[0])
 		if !strings.Contains(ex, "builtin:append") {
 			return "", -1, false
